@@ -130,9 +130,9 @@ theorem setSignal_inv {p : Prog} {s : State} (h : InvR p s) {x : Nat} {v0 : Int}
   · intro m hk hrun hv
     rw [kE] at hk; rw [runE] at hrun; rw [valE m (memo_ne_x m hk)] at hv
     exact dE m (h.valNone m hk hrun hv)
-  · intro m hk hrun hst ρ hρ
-    rw [kE] at hk; rw [runE] at hrun; rw [seenE] at hρ; rw [valE m (memo_ne_x m hk)]
-    exact h.replay m hk hrun (ndE m hst) ρ hρ
+  · intro m hk hrun hst
+    rw [kE] at hk; rw [runE] at hrun
+    exact (h.replay m hk hrun (ndE m hst)).congr (seenE m) (valE m (memo_ne_x m hk))
   · intro m hk hrun hst e he
     rw [kE] at hk; rw [runE] at hrun; rw [seenE] at he
     have hnd := ndE m hst
